@@ -13,7 +13,7 @@ from .common import get_db, seeded_sample
 PID = "C01"
 FUNCTIONS = [
     "every UnitInfo.tobase / UnitInfo.frombase closure built by posc.MakeCustomaryToBase / MakeBaseToCustomary / UnitInfo.MakeLambda",
-    "UnitDatabase.Convert (float branch, same-unit shortcut)", "UnitDatabase.GetInfo", "UnitDatabase.AddUnitBase identity pair",
+    "UnitDatabase.Convert (float, list/tuple and registered numpy.ndarray branches, same-unit shortcut)", "RegisterConversion.ConvertNumpyArray", "UnitDatabase.GetInfo", "UnitDatabase.AddUnitBase identity pair",
     "UnitDatabase.FillSimple", "UnitDatabase.FillUnitDatabaseWithPosc",
 ]
 BOUNDS = {
@@ -26,6 +26,7 @@ ASSUMPTIONS = [
     "A-FP: floats are exact reals, float literals lifted to their exact rational value; rounding magnitude is outside the claim",
     "numeric equality is |a-b| <= 1e-13*(|a|+|b|+1) decided over the reals",
     "A-SHIM: shims behave as the shadowed builtins on non-proxy arguments",
+    "same_fp configurations: z3 Float64 = IEEE-754 binary64, round-nearest-even; numpy element loops are the python operator per element",
 ]
 EXHAUSTIVE = {"quick": False, "thorough": False}
 DBS = ["default", "posc_nocat", "simple"]
@@ -78,6 +79,33 @@ def items(tier, seed):
         exp_pairs += [(qt, u, v) for u in us[:6] for v in us[:6] if u != v]
     for qt, u, v in seeded_sample(exp_pairs, 120 if tier == "quick" else 3000, seed + 5):
         out.append({"k": "exp", "db": "default", "qt": qt, "u": u, "v": v, "e": rng.choice([2, 3, -1, -2, -3])})
+    # container values (list, tuple, numpy array) through the same Convert: every pair that involves an offset or a unit-scale (factor 1)
+    # unit - the places where a shortcut is tempting - plus a seeded sample of the rest, and the expression-string units of the simple filler
+    for dbn in DBS:
+        db = get_db(dbn)
+        special, rest = [], []
+        for qt in db.GetQuantityTypes():
+            units = db.GetUnits(qt)
+
+            def _special(u):
+                tb = db.GetInfo(qt, u).tobase
+                return getattr(tb, "__a__", 0.0) != 0.0 or getattr(tb, "__d__", 0.0) != 0.0 or (getattr(tb, "__b__", 1.0) == getattr(tb, "__c__", 1.0))
+
+            sp = [u for u in units if _special(u)]
+            for u in units:
+                for v in units:
+                    if u == v:
+                        continue
+                    (special if (u in sp or v in sp) and (u == units[0] or v == units[0] or (u in sp and v in sp)) else rest).append((qt, u, v, units))
+        chosen = (special if dbn != "posc_nocat" or tier != "quick" else seeded_sample(special, 150, seed + 9)) + seeded_sample(rest, 200 if tier == "quick" else 4000, seed + 8)
+        # u -> u in IEEE-754 double semantics (z3 Float64): every value kind gets back bit-identical amounts (sign of zero, NaN included)
+        sp_units = sorted({(qt, u) for qt, u, v, units in special} | {(qt, v) for qt, u, v, units in special})
+        for j, (qt, u) in enumerate(sp_units + seeded_sample([(qt, u) for qt, u, v, units in rest], 60 if tier == "quick" else 1500, seed + 7)):
+            if dbn != "posc_nocat":
+                out.append({"k": "same_fp", "db": dbn, "qt": qt, "u": u, "cont": ("float", "list", "tuple", "numpy")[j % 4]})
+        for j, (qt, u, v, units) in enumerate(chosen):
+            w = units[(units.index(v) + 1 + j) % len(units)]
+            out.append({"k": "containers", "db": dbn, "qt": qt, "u": u, "v": v, "w": w, "cont": ("list", "tuple", "numpy")[j % 3]})
     # seeded extras
     db = get_db("default")
     allp, allt = [], []
@@ -96,14 +124,16 @@ def items(tier, seed):
     else:
         out += [{"k": "triple", "db": d, "qt": qt, "u": u, "v": v, "w": w} for d, qt, u, v, w in seeded_sample(allt, 40000, seed)]
     for i, c in enumerate(out):
-        if c["k"] in ("pair", "triple") and i % 2 == 0 and c["db"] != "simple":
+        if c["k"] in ("pair", "triple", "containers") and i % 2 == 0 and c["db"] != "simple":
             c["prelude"] = True  # history: the documented pass-through conversion of an Unknown-quantity value between the same units comes first
     rng.shuffle(out)
     return out
 
 
 def inputs(cfg):
-    return {"x": "real", "y": "real"} if cfg["k"] in ("unit", "exp") else {"x": "real"}
+    if cfg["k"] == "same_fp":
+        return {"x": "fp"}
+    return {"x": "real", "y": "real"} if cfg["k"] in ("unit", "exp", "containers") else {"x": "real"}
 
 
 def run(cfg, V):
@@ -114,6 +144,12 @@ def run(cfg, V):
         y = V["y"]
         return {"tb_x": info.tobase(x), "tb_y": info.tobase(y), "fb_x": info.frombase(x), "fb_y": info.frombase(y),
                 "fb_tb_x": info.frombase(info.tobase(x)), "tb_fb_x": info.tobase(info.frombase(x))}
+    if cfg["k"] == "same_fp":
+        from .c10 import _container
+
+        c = x if cfg["cont"] == "float" else _container(cfg["cont"], [x])
+        same = db.Convert(cfg["qt"], cfg["u"], cfg["u"], c)
+        return {"same": same if cfg["cont"] == "float" else list(same)[0], "n": 1 if cfg["cont"] == "float" else len(same)}
     qt, u, v = cfg["qt"], cfg["u"], cfg["v"]
     if cfg.get("prelude"):
         from barril.units import UNKNOWN_QUANTITY_TYPE
@@ -121,6 +157,21 @@ def run(cfg, V):
         for a, b in ((u, v), (v, u), (u, cfg.get("w", v)), (v, cfg.get("w", u))):
             db.Convert(UNKNOWN_QUANTITY_TYPE, a, b, 1.0)
             db.Convert(UNKNOWN_QUANTITY_TYPE, a, b, [1.0])
+    if cfg["k"] == "containers":
+        from .c10 import _container
+
+        w = cfg["w"]
+        xs = [x, V["y"]]
+        c = _container(cfg["cont"], xs)
+        same = db.Convert(qt, u, u, c)
+        r1 = db.Convert(qt, u, v, c)
+        r2 = db.Convert(qt, u, v, c)  # history: the same container converted again
+        uw = db.Convert(qt, u, w, c)
+        uvw = db.Convert(qt, v, w, r1)
+        back = db.Convert(qt, v, u, r1)
+        return {"same": list(same), "r1": list(r1), "r2": list(r2), "uw": list(uw), "uvw": list(uvw), "back": list(back), "after": list(c), "xs": xs,
+                "float": [db.Convert(qt, u, v, t) for t in xs], "same_type": type(same).__name__, "r_type": type(r1).__name__, "c_type": type(c).__name__,
+                "fresh": r1 is not c}
     if cfg["k"] == "exp":
         e = cfg["e"]
         y = V["y"]
@@ -149,6 +200,10 @@ def props(cfg, T, obs):
         # a conversion inside one quantity type never raises for a finite amount (no poles in the table)
         return [("no-exception", False)]
     x = T["x"]
+    if cfg["k"] == "same_fp":
+        from symx.core import lift_fp
+
+        return [("u->u gives back the bit-identical double (IEEE-754 semantics), whatever the value kind", z3.And(z3.BoolVal(obs["n"] == 1), lift_fp(obs["same"]) == x))]
     if cfg["k"] == "unit":
         y = T["y"]
         P = [
@@ -172,6 +227,18 @@ def props(cfg, T, obs):
             P.append(("odd exponents keep the order of two amounts", z3.Implies(z3.And(x < y, x != 0, y != 0) if e < 0 else x < y,
                                                                               (term(obs["r"]) < term(obs["ry"])) if e > 0 else z3.BoolVal(True))))
         return P
+    if cfg["k"] == "containers":
+        n = len(obs["xs"])
+        ident = lambda A, B: len(A) == len(B) and all(z3.is_true(z3.simplify(term(a) == term(b))) for a, b in zip(A, B))  # noqa: E731
+        return [
+            ("container u->u gives every element back exactly", ident(obs["same"], obs["xs"])),
+            ("a conversion leaves the given container as it was", ident(obs["after"], obs["xs"])),
+            ("converting the same container twice gives the same amounts", z3.And(*[approx(a, b) for a, b in zip(obs["r1"], obs["r2"])]) if len(obs["r2"]) == n else False),
+            ("container element ~ the float conversion of that element", z3.And(*[approx(a, b) for a, b in zip(obs["r1"], obs["float"])]) if len(obs["r1"]) == n else False),
+            ("container u->w ~ u->v->w", z3.And(*[approx(a, b) for a, b in zip(obs["uw"], obs["uvw"])]) if len(obs["uw"]) == n == len(obs["uvw"]) else False),
+            ("container u->v->u ~ x", z3.And(*[approx(a, b) for a, b in zip(obs["back"], obs["xs"])]) if len(obs["back"]) == n else False),
+            ("the container kind is kept", obs["same_type"] == obs["r_type"] == obs["c_type"]),
+        ]
     if cfg["k"] == "pair":
         return [
             ("u->u-returns-the-same-object", bool(obs["same_is_x"])),
